@@ -117,4 +117,200 @@ PropEq(c, a, b, calls, ret) ==
 \* as an `eq` call with the negated result.
 PropNe(c, a, b, calls, ret) == PropEq(c, a, b, calls, ~ret)
 
+
+\* ======================================================================
+\* PartialOrd / Ord (C03, C04)
+\* ======================================================================
+\* Orderings are the strings "Less" "Equal" "Greater"; partial_cmp may also
+\* yield "None".
+IntCmp(x, y) == IF x < y THEN "Less" ELSE IF x > y THEN "Greater" ELSE "Equal"
+Reverse(o) == IF o = "Less" THEN "Greater" ELSE IF o = "Greater" THEN "Less" ELSE o
+
+\* probe semantics: own order = integer order (NaN incomparable under
+\* partial_cmp only); custom methods = the reversed order
+OwnCmp(x, y)     == IntCmp(x, y)
+OwnPCmp(x, y)    == IF x = NaN \/ y = NaN THEN "None" ELSE IntCmp(x, y)
+MethodCmp(x, y)  == IntCmp(y, x)
+MethodPCmp(x, y) == IF x = NaN \/ y = NaN THEN "None" ELSE IntCmp(y, x)
+
+\* result of the field comparison function `fn` reached through `via`
+FieldCmpBy(fn, via, x, y) ==
+  IF fn = "cmp" THEN (IF via = Method THEN MethodCmp(x, y) ELSE OwnCmp(x, y))
+                ELSE (IF via = Method THEN MethodPCmp(x, y) ELSE OwnPCmp(x, y))
+
+OrdCompared(c, v) == { i \in FieldIdx(c, v) : c.variants[v].fields[i].ord # Ignore }
+OrdVia(c, v, i) == c.variants[v].fields[i].ord
+EffRank(c, v, i) ==
+  LET r == c.variants[v].fields[i].rank IN IF r = NoRank THEN MinRank + (i - 1) ELSE r
+
+\* ranks must be unique among the compared fields of one variant (C13)
+RanksUnique(c) ==
+  \A v \in 1..NVariants(c) : \A i, j \in OrdCompared(c, v) :
+     i # j => EffRank(c, v, i) # EffRank(c, v, j)
+
+\* the compared fields of variant v in ascending effective rank
+RECURSIVE OrdOrderOf(_, _, _)
+OrdOrderOf(c, v, S) ==
+  IF S = {} THEN <<>>
+  ELSE LET m == CHOOSE i \in S : \A j \in S : EffRank(c, v, i) <= EffRank(c, v, j)
+       IN <<m>> \o OrdOrderOf(c, v, S \ {m})
+OrdOrder(c, v) == OrdOrderOf(c, v, OrdCompared(c, v))
+
+\* discriminants: the explicit literal, otherwise previous + 1
+RECURSIVE Disc(_, _)
+Disc(c, v) ==
+  IF c.variants[v].disc # NoDisc THEN c.variants[v].disc
+  ELSE IF v = 1 THEN 0 ELSE Disc(c, v - 1) + 1
+
+\* which field-comparison function an impl of operation `op` uses for its
+\* fields: the Ord impl uses cmp; a stand-alone PartialOrd impl uses
+\* partial_cmp; when both are educed partial_cmp is Some(cmp).
+OrdFn(c, op) == IF HasTrait(c, "Ord") THEN "cmp" ELSE "partial_cmp"
+
+\* --- declarative meaning: lexicographic over OrdOrder; first non-Equal wins
+RECURSIVE LexFrom(_, _, _, _, _)
+LexFrom(c, fn, a, b, order) ==
+  IF order = <<>> THEN "Equal"
+  ELSE LET i == Head(order)
+           r == FieldCmpBy(fn, OrdVia(c, a.v, i), a.f[i], b.f[i])
+       IN IF r = "Equal" THEN LexFrom(c, fn, a, b, Tail(order)) ELSE r
+
+CmpDecl(c, op, a, b) ==
+  IF a.v # b.v THEN IntCmp(Disc(c, a.v), Disc(c, b.v))
+  ELSE LexFrom(c, OrdFn(c, op), a, b, OrdOrder(c, a.v))
+
+\* --- Impl: discriminant comparison first; then one `match cmp(..)` per
+\* compared field in ascending rank, returning on the first non-Equal.
+\* run.pc is the position in OrdOrder.
+ImplCmpStep(c, r) ==
+  IF r.a.v # r.b.v
+  THEN [r EXCEPT !.done = TRUE, !.ret = IntCmp(Disc(c, r.a.v), Disc(c, r.b.v))]
+  ELSE LET order == OrdOrder(c, r.a.v) IN
+    IF r.pc > Len(order) THEN [r EXCEPT !.done = TRUE, !.ret = "Equal"]
+    ELSE LET i == order[r.pc]
+             fn == OrdFn(c, r.op)
+             via == OrdVia(c, r.a.v, i)
+             res == FieldCmpBy(fn, via, r.a.f[i], r.b.f[i])
+             call == MkCall(fn, via, "a", i, r.a.f[i], "b", i, r.b.f[i], res)
+         IN IF res = "Equal"
+            THEN [r EXCEPT !.pc = @ + 1, !.calls = Append(@, call)]
+            ELSE [r EXCEPT !.pc = @ + 1, !.calls = Append(@, call), !.done = TRUE, !.ret = res]
+
+\* --- Prop: every logged call is on a compared field of the common variant,
+\* left operand first, through the method iff the field has one (and then
+\* with the operation's own comparison function), and returned what the
+\* probe semantics say.  The result must be *justified* along the rank
+\* order: every field before the decisive one has a logged Equal call and the
+\* decisive one a logged call with the result; or all compared fields have an
+\* Equal call and the result is Equal.  Extra calls are tolerated.  Operands of
+\* different variants: the discriminant order, and no field calls at all.
+CmpCallOK(c, op, a, b, k) ==
+  /\ a.v = b.v
+  /\ CallLF(k) = CallRF(k)
+  /\ CallLF(k) \in OrdCompared(c, a.v)
+  /\ CallLS(k) = "a" /\ CallRS(k) = "b"
+  /\ CallLV(k) = a.f[CallLF(k)] /\ CallRV(k) = b.f[CallRF(k)]
+  /\ CallVia(k) = OrdVia(c, a.v, CallLF(k))
+  /\ CallFn(k) \in {"cmp", "partial_cmp"}
+  /\ CallVia(k) = Method => CallFn(k) = OrdFn(c, op)
+  /\ CallRet(k) = FieldCmpBy(CallFn(k), CallVia(k), CallLV(k), CallRV(k))
+
+HasCall(calls, i, res) == \E j \in DOMAIN calls : CallLF(calls[j]) = i /\ CallRet(calls[j]) = res
+
+Justified(c, a, calls, ret) ==
+  LET order == OrdOrder(c, a.v) IN
+    \/ /\ ret = "Equal"
+       /\ \A p \in DOMAIN order : HasCall(calls, order[p], "Equal")
+    \/ /\ ret # "Equal"
+       /\ \E p \in DOMAIN order :
+            /\ HasCall(calls, order[p], ret)
+            /\ \A q \in 1..(p - 1) : HasCall(calls, order[q], "Equal")
+
+PropCmp(c, op, a, b, calls, ret) ==
+  IF a.v # b.v
+  THEN calls = <<>> /\ ret = IntCmp(Disc(c, a.v), Disc(c, b.v))
+  ELSE /\ \A j \in DOMAIN calls : CmpCallOK(c, op, a, b, calls[j])
+       /\ Justified(c, a, calls, ret)
+       /\ (op = "cmp" \/ HasTrait(c, "Ord")) => ret # "None"
+
+
+\* ======================================================================
+\* Hash (C05)
+\* ======================================================================
+\* The data fed to the hasher is observed through a recording Hasher as a
+\* sequence of strings "kind:value", one per write call.  Probe semantics:
+\* the own Hash of a probe with value x writes a tag and x; the custom method
+\* writes another tag and x + 100.  Both are self-delimiting.
+OwnFeed(x)    == <<"u8:160", "i8:" \o ToString(x)>>
+MethodFeed(x) == <<"u8:176", "i8:" \o ToString(x + 100)>>
+FieldFeed(via, x) == IF via = Method THEN MethodFeed(x) ELSE OwnFeed(x)
+
+HashFed(c, v) == { i \in FieldIdx(c, v) : c.variants[v].fields[i].hash # Ignore }
+HashVia(c, v, i) == c.variants[v].fields[i].hash
+HashOrder(c, v) == SortedSeq(HashFed(c, v))           \* declaration order
+
+\* what educe writes itself before the fields: the 0-based variant index as a
+\* usize for enums, nothing for structs.  (Impl-level detail; the verdict
+\* predicate does not depend on it.)
+ImplPrefix(c, v) == IF c.kind = "enum" THEN <<"usize:" \o ToString(v - 1)>> ELSE <<>>
+
+RECURSIVE FieldFeeds(_, _, _)
+FieldFeeds(c, a, order) ==
+  IF order = <<>> THEN <<>>
+  ELSE FieldFeed(HashVia(c, a.v, Head(order)), a.f[Head(order)]) \o FieldFeeds(c, a, Tail(order))
+
+ImplHashFeed(c, a) == ImplPrefix(c, a.v) \o FieldFeeds(c, a, HashOrder(c, a.v))
+
+\* the part of a value the hash may depend on
+HashKey(c, a) == <<a.v, [i \in HashFed(c, a.v) |-> a.f[i]]>>
+
+\* --- Impl machine: first step writes the prefix, then one step per fed
+\* field in declaration order.  run = [a, pc, started, feed, calls, done]
+ImplHashStep(c, r) ==
+  IF ~r.started THEN [r EXCEPT !.started = TRUE, !.feed = ImplPrefix(c, r.a.v)]
+  ELSE LET order == HashOrder(c, r.a.v) IN
+    IF r.pc > Len(order) THEN [r EXCEPT !.done = TRUE]
+    ELSE LET i == order[r.pc]
+             via == HashVia(c, r.a.v, i)
+         IN [r EXCEPT !.pc = @ + 1,
+                      !.feed = @ \o FieldFeed(via, r.a.f[i]),
+                      !.calls = Append(@, <<"hash", via, "a", i, r.a.f[i], 0>>)]
+
+\* --- Prop for one observation (one value hashed once): the field calls are
+\* exactly the fed fields, each once, in declaration order, through the method
+\* iff the field has one, on the right operand; and the feed contains the
+\* field feeds as a subsequence in that order.
+HashCallsOK(c, a, calls) ==
+  LET order == HashOrder(c, a.v) IN
+    /\ Len(calls) = Len(order)
+    /\ \A p \in DOMAIN order :
+         LET k == calls[p] IN
+           /\ k[1] = "hash"
+           /\ k[2] = HashVia(c, a.v, order[p])
+           /\ k[3] = "a"
+           /\ k[4] = order[p]
+           /\ k[5] = a.f[order[p]]
+
+RECURSIVE IsSubseqFrom(_, _, _, _)
+IsSubseqFrom(small, big, i, j) ==
+  IF i > Len(small) THEN TRUE
+  ELSE IF j > Len(big) THEN FALSE
+  ELSE IF small[i] = big[j] THEN IsSubseqFrom(small, big, i + 1, j + 1)
+  ELSE IsSubseqFrom(small, big, i, j + 1)
+IsSubseq(small, big) == IsSubseqFrom(small, big, 1, 1)
+
+PropHashOne(c, a, calls, feed) ==
+  /\ HashCallsOK(c, a, calls)
+  /\ IsSubseq(FieldFeeds(c, a, HashOrder(c, a.v)), feed)
+
+\* --- Prop for a whole type: obs is the sequence of observations of all
+\* values of the type, eqs the observed == results as <<i, j, bool>>.
+\* Agreeing on (variant, fed fields) <=> identical feed; and a == b implies
+\* identical feed (the corpus educes PartialEq with the same ignore choices).
+PropHashAll(c, obs, eqs) ==
+  /\ \A p \in DOMAIN obs : PropHashOne(c, obs[p].a, obs[p].calls, obs[p].feed)
+  /\ \A p \in DOMAIN obs : \A q \in DOMAIN obs :
+        (HashKey(c, obs[p].a) = HashKey(c, obs[q].a)) <=> (obs[p].feed = obs[q].feed)
+  /\ \A k \in DOMAIN eqs : eqs[k][3] => obs[eqs[k][1]].feed = obs[eqs[k][2]].feed
+
 =============================================================================
